@@ -535,4 +535,166 @@ Section Inv.
           -- injection Hval as Hval; subst. reflexivity.
           -- rewrite Hval. reflexivity.
   Qed.
+
+  Lemma add_inv : forall h (st st' : state) c b,
+      inv h st -> addM st c = Done st' b -> inv (h ++ [c]) st'.
+  Proof.
+    intros h st st' [m d] b Hi H.
+    pose proof (inv_wf _ _ Hi) as WF.
+    destruct (add_shape (fun l => NoDup (map fst l)) (fun k td l => NoDup_aset _ k td l)
+                        (fun k l => NoDup_adel _ k l) st (m, d) st' b H (proj2 Hi)) as [ND SR].
+    split; [|exact ND].
+    intro k. destruct (key_eqb k (key_of m)) eqn:E.
+    - apply key_eqb_eq in E. subst k. eapply add_inv_key; eauto.
+    - apply key_eqb_neq in E.
+      destruct (add_frame D dapp V vinit vadd vfinal true true my_did max_slots st (m, d) st' b k WF H) as [_ G].
+      apply invK_weaken. eapply invK_transfer; [apply G; exact E|exact SR|apply (proj1 Hi)].
+  Qed.
+
+  (* ----- dropping a stream (gc, Close) ----- *)
+  Definition drop_stream (k : key) (td : tracked V) (st : state) : state :=
+    untrack k (remove_temp (tkey_of (t_first td)) st).
+
+  Lemma drop_inv : forall h (st : state) k td,
+      inv h st -> trk st k = Some td -> inv h (drop_stream k td st).
+  Proof.
+    intros h st k td [I ND] L. split; [|simpl; apply NoDup_adel; exact ND].
+    assert (Kf : key_of (t_first td) = k).
+    { destruct (I k) as [I1 _]. destruct (I1 td L) as [acc [_ [P _]]]. apply (sp_key _ _ _ P). }
+    intro k'. destruct (key_eqb k' k) eqn:E.
+    - apply key_eqb_eq in E. subst k'. destruct (I k) as [I1 [I2 I3]]. split; [|split].
+      + intros td0 L0. simpl in L0. rewrite alookup_adel_same in L0 by exact key_eqb_eq. discriminate.
+      + intros fd L0. simpl in L0. auto.
+      + intros tk files Hk L0. exfalso. simpl in L0.
+        destruct (tkey_eqb tk (tkey_of (t_first td))) eqn:E2.
+        * apply tkey_eqb_eq in E2. subst tk. rewrite alookup_adel_same in L0 by exact tkey_eqb_eq. discriminate.
+        * apply tkey_eqb_neq in E2. rewrite alookup_adel_other in L0 by (exact tkey_eqb_eq || exact E2).
+          destruct (I3 tk files Hk L0) as [td' [A B]]. rewrite L in A. injection A as A; subst td'. congruence.
+    - apply key_eqb_neq in E. eapply invK_transfer; [| |apply I].
+      + unfold drop_stream. eapply same_at_trans; [apply same_at_remove_temp|apply same_at_untrack].
+        * rewrite tkey_key_of. congruence.
+        * congruence.
+      + reflexivity.
+  Qed.
+
+  Lemma gc_list_inv : forall h l (st : state),
+      inv h st -> NoDup (map fst l) -> (forall k td, In (k, td) l -> trk st k = Some td) ->
+      inv h (gc_list D V timeout l st).
+  Proof.
+    induction l as [|[k td] l IH]; intros st Hi ND Hin; simpl; auto.
+    inversion ND as [|? ? Hnot ND']; subst.
+    assert (Rest : forall (s : state), (forall k1, k1 <> k -> trk s k1 = trk st k1) ->
+                                      forall k1 td1, In (k1, td1) l -> trk s k1 = Some td1).
+    { intros s Hs k1 td1 H1. rewrite Hs; [apply Hin; right; exact H1|].
+      intro X. subst k1. apply Hnot. apply in_map_iff. exists (k, td1). auto. }
+    destruct (timeout <=? s_tick st - t_tick td).
+    - apply IH; auto.
+      + apply (drop_inv h st k td Hi). apply Hin. left. reflexivity.
+      + apply Rest. intros k1 Hn. simpl. apply alookup_adel_other; [exact key_eqb_eq|exact Hn].
+    - apply IH; auto.
+  Qed.
+
+  Lemma close_list_inv : forall h l (st : state),
+      inv h st -> NoDup (map fst l) -> (forall k td, In (k, td) l -> trk st k = Some td) ->
+      inv h (close_list D V l st).
+  Proof.
+    induction l as [|[k td] l IH]; intros st Hi ND Hin; simpl; auto.
+    inversion ND as [|? ? Hnot ND']; subst.
+    apply IH; auto.
+    - apply (drop_inv h st k td Hi). apply Hin. left. reflexivity.
+    - intros k1 td1 H1. simpl. rewrite alookup_adel_other.
+      + apply Hin. right. exact H1.
+      + exact key_eqb_eq.
+      + intro X. subst k1. apply Hnot. apply in_map_iff. exists (k, td1). auto.
+  Qed.
+
+  Lemma nodup_lookup : forall (A : Type) (l : list (key * A)) k a,
+      NoDup (map fst l) -> In (k, a) l -> alookup key_eqb k l = Some a.
+  Proof.
+    induction l as [|[k1 a1] l IH]; intros k a ND Hin; [destruct Hin|].
+    simpl. inversion ND as [|? ? Hnot ND']; subst. destruct Hin as [Hin|Hin].
+    - injection Hin as E1 E2; subst. rewrite key_eqb_refl. reflexivity.
+    - destruct (key_eqb k k1) eqn:E.
+      + apply key_eqb_eq in E. subst k1. exfalso. apply Hnot. apply in_map_iff. exists (k, a). auto.
+      + apply IH; auto.
+  Qed.
+
+  Lemma inv_tick_field : forall h (st : state) t,
+      inv h st -> inv h (mkState t (s_tracked st) (s_temps st) (s_finals st) (s_removed st) (s_out st)).
+  Proof.
+    intros h st t [I ND]. split; [|exact ND]. intro k.
+    eapply invK_transfer; [| |apply I]; [repeat split; auto|reflexivity].
+  Qed.
+
+  Lemma node_eqb_eq : forall a b, node_eqb a b = true <-> a = b.
+  Proof.
+    intros [a1 a2] [b1 b2]. unfold node_eqb. simpl. rewrite andb_true_iff, !N.eqb_eq.
+    split; [intros [? ?]; congruence|intro H; inversion H; auto].
+  Qed.
+
+  Lemma removed_mono : forall (st : state) n n',
+      is_removed (mark_removed st n) n' = false -> is_removed st n' = false.
+  Proof.
+    intros st n n' H. unfold is_removed, mark_removed in *. simpl in H.
+    destruct (alookup node_eqb n' (s_removed st)) eqn:L; auto. exfalso.
+    destruct (node_eqb n' n) eqn:E.
+    - apply node_eqb_eq in E. subst n'.
+      rewrite alookup_aset_same in H by exact node_eqb_eq. discriminate.
+    - assert (n' <> n) by (intro X; subst; rewrite (proj2 (node_eqb_eq n n) eq_refl) in E; discriminate).
+      rewrite alookup_aset_other in H by (exact node_eqb_eq || assumption). rewrite L in H. discriminate.
+  Qed.
+
+  Lemma step_inv : forall h (st st' : state) o b,
+      inv h st -> stepM st o = Done st' b ->
+      inv (h ++ match o with OAdd c => [c] | _ => [] end) st'.
+  Proof.
+    intros h st st' o b Hi H. destruct o as [c| |s r|]; simpl in H.
+    - eapply add_inv; eauto.
+    - injection H as H1 H2; subst st' b. rewrite app_nil_r. unfold tick.
+      pose proof (inv_tick_field h st (s_tick st + 1) Hi) as Hi'.
+      destruct (_ =? 0); [|exact Hi'].
+      unfold gc. apply gc_list_inv; auto.
+      + simpl. exact (proj2 Hi).
+      + intros k td Hin. simpl. apply nodup_lookup; [exact (proj2 Hi)|exact Hin].
+    - injection H as H1 H2; subst st' b. rewrite app_nil_r. destruct Hi as [I ND]. split; [|exact ND].
+      intro k. destruct (I k) as [I1 [I2 I3]]. split; [|split]; auto.
+      intros td L. destruct (I1 td L) as [acc [Sq [P Lv]]]. exists acc. split; auto. split; auto.
+      intro R. apply removed_mono in R. destruct (Lv R) as [A [B [files [C E]]]].
+      split; auto. split; auto. exists files. auto.
+    - injection H as H1 H2; subst st' b. rewrite app_nil_r. unfold close.
+      apply close_list_inv; auto.
+      + exact (proj2 Hi).
+      + intros k td Hin. apply nodup_lookup; [exact (proj2 Hi)|exact Hin].
+  Qed.
+
+  Definition chunks_of (ops : list (op D)) : list chunk :=
+    flat_map (fun o => match o with OAdd c => [c] | _ => [] end) ops.
+
+  Lemma run_inv : forall ops h (st st' : state),
+      inv h st -> runM st ops = Some st' -> inv (h ++ chunks_of ops) st'.
+  Proof.
+    induction ops as [|o ops IH]; intros h st st' Hi H; simpl in H.
+    - injection H as H; subst. simpl. rewrite app_nil_r. exact Hi.
+    - destruct (stepM st o) as [s1 b|] eqn:Hs; [|discriminate].
+      pose proof (step_inv _ _ _ _ _ Hi Hs) as Hi1.
+      specialize (IH _ _ _ Hi1 H). simpl chunks_of. rewrite app_assoc. exact IH.
+  Qed.
+
+  Lemma init_inv : inv [] (@init D V).
+  Proof.
+    split; [|constructor]. intro k. split; [|split]; intros; discriminate.
+  Qed.
+
+  (* finalize => complete valid sequence: every final directory of every reachable state was
+     produced by a complete in-order valid chunk sequence that is a subsequence of the
+     delivered chunks, and holds exactly what those chunks wrote *)
+  Lemma finalized_only_if_complete_proved :
+    forall ops (st : state) k fd,
+      runM init ops = Some st -> fin st k = Some fd ->
+      exists acc, subseq acc (chunks_of ops) /\ complete k acc fd.
+  Proof.
+    intros ops st k fd Hr L.
+    pose proof (run_inv ops [] init st init_inv Hr) as [I _]. simpl in I.
+    destruct (I k) as [_ [I2 _]]. auto.
+  Qed.
 End Inv.
